@@ -5,4 +5,11 @@ CASES = [
     {"id": "benign-%s" % m, "props": ALL, "expect": "quiet", "patches": [("selftest/benign/%s.diff" % m, False)],
      "note": "independent benign refactoring of src/%s/mod.rs" % m}
     for m in ("util", "iana", "key", "mac", "sign", "cwt", "common", "header", "encrypt", "context")
+] + [
+    {"id": "benign2-%s" % m, "props": ALL, "expect": "quiet", "patches": [("selftest/benign/%s.diff" % m, False)], "note": what}
+    for m, what in (("w1", "clippy-style clean-ups across the crate"), ("w2", "reduce-duplication helpers (pub(crate) util functions)"),
+                    ("w3", "additive API (new constructors, accessors, conversions)"), ("w4", "decoder restructuring (array destructuring, iterators)"),
+                    ("w5", "encoder restructuring (closures, iterator chains)"), ("w6", "builder macros / iana macro / guards rewritten"),
+                    ("w7", "sign/verify/decrypt flows (create via try_create, shared private producers)"),
+                    ("w8", "common/util rewritten (label ordering by key, helper fns)"))
 ]
